@@ -45,6 +45,24 @@ def gen_pwm(r, w):
 	return [[cols[j][i] for j in range(w)] for i in range(4)]
 
 
+def make_palindromic(pwm):
+	"""pwm[::-1, ::-1] == pwm exactly (an E-box like motif)."""
+	w = len(pwm[0])
+	out = [row[:] for row in pwm]
+	for j in range(w // 2):
+		for i in range(4):
+			out[3 - i][w - 1 - j] = pwm[i][j]
+	if w % 2:
+		mid = w // 2
+		a, b = pwm[0][mid], pwm[1][mid]
+		out[0][mid], out[3][mid] = a, a
+		out[1][mid], out[2][mid] = b, b
+		t = 2 * (a + b)
+		for i in range(4):
+			out[i][mid] = out[i][mid] / t if t > 0 else 0.25
+	return out
+
+
 def consensus(pwm):
 	w = len(pwm[0])
 	return "".join("ACGT"[max(range(4), key=lambda i: pwm[i][j])] for j in range(w))
@@ -56,8 +74,11 @@ def gen_world(r, leg):
 	motifs = []
 	for i in range(n_motifs):
 		w = r.randint(2, maxw)
+		pw = gen_pwm(r, w)
+		if r.chance(0.12):
+			pw = make_palindromic(pw)
 		motifs.append({"name": "M%d_%s" % (i, r.choice(["x", "long name", "a"])),
-			"pwm": gen_pwm(r, w)})
+			"pwm": pw})
 	ws = [len(m["pwm"][0]) for m in motifs]
 	n_seq = r.randint(1, 6 if leg == "real" else 3)
 	equal = leg == "sim" or r.chance(0.6)
@@ -97,6 +118,13 @@ def gen_world(r, leg):
 		for _ in range(r.choice([0, 0, 1, 3])):
 			p = r.randint(0, L - 1)
 			for q in range(p, min(L, p + r.randint(1, 3))):
+				s[q] = "N"
+		if r.chance(0.2):
+			# unknown characters at the very start / end (hits may reach into them)
+			for q in range(min(L, r.randint(1, 3))):
+				s[q] = "N"
+		if r.chance(0.2):
+			for q in range(max(0, L - r.randint(1, 3)), L):
 				s[q] = "N"
 		seqs.append("".join(s))
 	wmin = min(ws)
